@@ -38,7 +38,7 @@ def _case(draw, kind):
         c["mesh"] = draw(zoo.mesh3d(max_n=10))
         c["place0"] = draw(zoo.placement(max_offset=2.0, p_identity=0.6))
     elif kind in ("Polygon", "ConvexPolygon", "ConvexSpheropolygon"):
-        kinds = ("convex",) if kind != "Polygon" else ("star", "comb", "lattice", "convex", "untangled")
+        kinds = ("convex",) if kind != "Polygon" else ("star", "comb", "lattice", "lattice_free", "lattice_free", "convex", "untangled")
         c["poly"] = draw(gp.simple_polygon(max_n=10, kinds=kinds))
         c["emb"] = draw(gp.embedding())
     else:
@@ -91,7 +91,10 @@ def _build_pair(case):
         gx = S.Polyhedron(V1.copy(), [np.array(f_) for f_ in F1], True)
         return x, gx, {"R": R, "t": t, "s": s, "perm": perm}
     xy = gp.build_polygon_xy(case["poly"])
-    em = gp.embed(xy, case["emb"])
+    emb = case["emb"]
+    if case["poly"]["kind"].startswith("lattice"):
+        emb = dict(emb, place=None, inplane=0.0, offset2=[0.0, 0.0])  # keep the base polygon axis-aligned on integers
+    em = gp.embed(xy, emb)
     V0 = em["verts"]
     nrm = em["nplus"] * (-1.0 if case["emb"]["normal"] == "minus" else 1.0)
     V1, R, t, s = zoo.apply_placement(g, V0)
@@ -237,7 +240,7 @@ def _run(case, rec):
     rec.concrete = {"kind": kind, "x": repr(x)[:300], "s": s, "t": t, "angle": ang}
     rec.label("cls:" + kind, "scaled>=10x" if abs(math.log10(s)) >= 1 else None, "small_scale" if s <= 1e-2 else None, "rotated" if ang >= 0.1 else None,
               "translated>=1D" if np.linalg.norm(t) >= size0 * s else None, "relabelled" if rel else None,
-              "axis_aligned_base" if (kind == "Polyhedron" and case["mesh"]["kind"] == "voxel") else None)
+              "axis_aligned_base" if (kind == "Polyhedron" and case["mesh"]["kind"] == "voxel") or (kind == "Polygon" and case["poly"]["kind"].startswith("lattice")) else None)
     rec.nontrivial = abs(math.log10(s)) >= 1 or ang >= 0.1 or np.linalg.norm(t) >= size0 * s or rel
     skip = ("minimal_bounding_sphere", "minimal_bounding_sphere_radius", "minimal_bounding_circle", "minimal_bounding_circle_radius")
     ox = observe.observe(x, with_queries=False)
@@ -307,6 +310,23 @@ def _run(case, rec):
     # containment, form factor
     if has_v and not isinstance(x, S.ConvexSpheropolygon):
         P, _ = observe.probe_points(x.vertices, float(getattr(x, "radius", 0.0) or 0.0))
+        if isinstance(x, S.Polygon):
+            # probes sharing one coordinate bit-for-bit with a vertex, inside and beyond the bounding box:
+            # an axis-aligned polygon must behave like its rotated copy
+            Vx = np.asarray(x.vertices, dtype=float)
+            u_, v_, _n = geom.plane_frame(np.asarray(x.normal, dtype=float))
+            lo, hi = Vx.min(axis=0), Vx.max(axis=0)
+            ext = []
+            for w in Vx[:8]:
+                for k in range(3):
+                    for fr in (-0.3, 0.21, 0.47, 0.83, 1.3):
+                        q_ = lo + fr * (hi - lo)
+                        q_[k] = w[k]
+                        q_ = q_ - np.dot(q_ - Vx[0], _n) * _n  # back into the plane
+                        if abs(np.dot(np.eye(3)[k], _n)) < 1e-12:
+                            q_[k] = w[k]
+                        ext.append(q_)
+            P = np.vstack([P, np.array(ext)])
         P = P[_boundary_distance(x, P) > 1e-6 * size0]
         a = call(x.is_inside, P.copy())
         b = call(gx.is_inside, _pt(P, info))
@@ -438,7 +458,7 @@ def fuzz_targets():
 
 
 def clauses():
-    q = {"ConvexPolyhedron": 220, "Polyhedron": 120, "ConvexSpheropolyhedron": 120, "Polygon": 300, "ConvexPolygon": 250, "ConvexSpheropolygon": 200,
+    q = {"ConvexPolyhedron": 220, "Polyhedron": 120, "ConvexSpheropolyhedron": 120, "Polygon": 900, "ConvexPolygon": 250, "ConvexSpheropolygon": 200,
          "Circle": 120, "Ellipse": 120, "Sphere": 120, "Ellipsoid": 120}
     return [Clause("covariance_" + k, _case(k), _run, quick=q[k], thorough=q[k] * 25, rule="x vs g.x for " + k,
                    floors={"scaled>=10x": 0.1}) for k in KINDS] + [
